@@ -687,19 +687,52 @@ func c20DedupOnce(c *Ctx, r *Report, rule string) {
 // it was handed for the empty name). Recognised by what it is, not by how the buffer was made, so that resizing
 // the buffer is not reported.
 func packerResultOnItsBuffer(s *boundSite) string {
-	if s.Kind != "slice-high" || s.Upper == nil || s.UpperK != 0 || fnDisplay(s.Fn) != "EDNS0_REPORTING.pack" {
+	if s.Kind != "slice-high" || s.Upper == nil || s.UpperK != 0 {
 		return ""
 	}
-	ex, ok := s.Upper.(*ssa.Extract)
-	if !ok || ex.Index != 0 {
+	// every value the bound can be is the offset a packer of this package returned for this very buffer
+	leaves := phiLeaves(s.Upper)
+	if len(leaves) == 0 {
 		return ""
 	}
-	call, ok := ex.Tuple.(*ssa.Call)
-	if !ok || calleeNameSSA(&call.Call) != "PackDomainName" || len(call.Call.Args) < 3 || call.Call.Args[1] != s.Buf {
-		return ""
+	var names []string
+	for _, lf := range leaves {
+		ex, ok := lf.(*ssa.Extract)
+		if !ok {
+			return ""
+		}
+		call, ok := ex.Tuple.(*ssa.Call)
+		if !ok {
+			return ""
+		}
+		sig := call.Call.Signature()
+		res := sig.Results()
+		if res.Len() < 2 || ex.Index >= res.Len()-1 || !isErrorType(res.At(res.Len()-1).Type()) {
+			return ""
+		}
+		if b, isB := res.At(ex.Index).Type().Underlying().(*types.Basic); !isB || b.Kind() != types.Int {
+			return ""
+		}
+		// a function or method of the package under analysis
+		inPkg := false
+		if g := call.Call.StaticCallee(); g != nil {
+			inPkg = g.Pkg == s.Fn.Pkg
+		} else if call.Call.IsInvoke() {
+			inPkg = call.Call.Method.Pkg() == s.Fn.Pkg.Pkg
+		}
+		if !inPkg {
+			return ""
+		}
+		onBuf := false
+		for _, a := range call.Call.Args {
+			if a == s.Buf {
+				onBuf = true
+			}
+		}
+		if !onBuf {
+			return ""
+		}
+		names = append(names, calleeNameSSA(&call.Call))
 	}
-	if k, isK := constIntOf(call.Call.Args[2]); !isK || k != 0 {
-		return ""
-	}
-	return "needs 'PackDomainName returns an offset within the buffer it was given', a postcondition of the name packer, which is not decided"
+	return "the buffer is cut at the offset the packers (" + strings.Join(uniqStrings(names), ", ") + ") returned for this very buffer: needs 'a packer returns an offset within the buffer it was given', which rests on the name packer's postcondition and is not decided"
 }
